@@ -230,6 +230,8 @@ func fixedConfigs() []cfg16 {
 }
 
 func runC16(r *vh.Rng, n int, w *vh.Writer) int {
+	nShort := n / 10
+	n -= nShort
 	nCfg := n * 4 / 5
 	fixed := fixedConfigs()
 	for i := 0; i < nCfg; i++ {
@@ -320,6 +322,34 @@ func runC16(r *vh.Rng, n int, w *vh.Writer) int {
 			Key:        fmt.Sprintf("txt|%q", txt),
 			Kind:       "txt",
 			Sample:     map[string]any{"reader_ski": own, "txt": fmt.Sprintf("%+q", txt), "entry": entrySample(rb.stored), "reported": entrySample(rb.reported)},
+		})
+	}
+	// shortenString itself, any limit (the manager only ever uses 32)
+	for i := 0; i < nShort; i++ {
+		s := descrString(r, r.Chance(15))
+		var lim int
+		switch r.Intn(4) {
+		case 0:
+			lim = r.Intn(6)
+		case 1:
+			lim = len(s) - 3 + r.Intn(7)
+			if lim < 0 {
+				lim = 0
+			}
+		default:
+			lim = r.Intn(len(s) + 4)
+		}
+		var o string
+		if err := call("shortenString", func() { o = mdns.VerifShortenString(s, lim) }); err != nil {
+			fmt.Fprintln(os.Stderr, "mdnsdrv:", err, "input:", q(s), lim)
+			return 1
+		}
+		w.Put(vh.Case{
+			Coq:        fmt.Sprintf("KShort %s %d %s", pk(s), lim, pk(o)),
+			Nontrivial: len(s) > lim,
+			Key:        fmt.Sprintf("short|%q|%d", s, lim),
+			Kind:       "shorten",
+			Sample:     map[string]any{"input": q(s), "limit": lim, "output": q(o)},
 		})
 	}
 	return 0
